@@ -198,6 +198,8 @@ func init() {
 					Script: []string{fmt.Sprintf("part1:hs:%d", n), "settle", "reopen-out", "settle", fmt.Sprintf("part2:hs:%d", n), "expect:hs", "send:tc", "expect:tc", "send:ta", "expect:ta", "send:cc", "expect:cc", "data:abc", "settle", "drop"}}}}
 			out = append(out, concExtra{sc, [2]int{1, 2}, c08DeliveredCheck("abc")})
 		}
+		out = append(out, concExtra{ConcScenario{Name: "legacy/first-body-bytes-arrive-with-the-request-head", InPreload: true,
+			Plans: []TunnelPlan{{Kind: "legacy", ConnID: "A", User: "ua", IP: "10.0.0.1", Host: "ha.example:3389", Script: []string{"data:hello ", "data:world", "settle", "drop", "idle"}}}}, [2]int{1, 2}, c08DeliveredCheck("hello world")})
 		for _, kind := range []string{"ws", "legacy"} {
 			sc := ConcScenario{Name: kind + "/client-leaves-right-after-its-last-packets",
 				Plans: []TunnelPlan{{Kind: kind, ConnID: "A", User: "ua", IP: "10.0.0.1", Host: "ha.example:3389", Script: []string{"data:hello ", "data:world", "drop", "idle"}}}}
